@@ -13,10 +13,15 @@
 EXTENDS Naturals, FiniteSets, TLC
 
 Methods == {"initialize", "ping", "tools/list", "tools/call", "prompts/list", "prompts/get",
-            "resources/list", "resources/read", "unknown/method"}
+            "resources/list", "resources/read", "unknown/method",
+            \* the remaining methods of the dispatch table, and one the library does not serve
+            "resources/templates/list", "resources/subscribe", "resources/unsubscribe", "completion/complete", "logging/setLevel"}
 
-NeedsParams == {"initialize", "tools/call", "prompts/get", "resources/read"}
-KeyOf == [m \in NeedsParams |-> CASE m = "initialize" -> "protocolVersion" [] m = "resources/read" -> "uri" [] OTHER -> "name"]
+NeedsParams == {"initialize", "tools/call", "prompts/get", "resources/read", "resources/subscribe", "resources/unsubscribe", "completion/complete"}
+KeyOf == [m \in NeedsParams |-> CASE m = "initialize" -> "protocolVersion" [] m \in {"resources/read", "resources/subscribe", "resources/unsubscribe"} -> "uri"
+                                   [] m = "completion/complete" -> "ref" [] OTHER -> "name"]
+\* methods on which the statements are silent beyond "a well-formed answer": serving and refusing are both admitted
+Optional == {"resources/subscribe", "resources/unsubscribe", "completion/complete", "logging/setLevel"}
 
 \* parameter classes
 PCommon == {"ok", "absent", "null", "array", "string", "number"}
@@ -28,6 +33,8 @@ PClasses(m) ==
     [] m = "prompts/get" -> PCommon \cup PKeyed \cup {"argsArray", "h:error", "h:nil"}
     [] m = "resources/read" -> PCommon \cup PKeyed \cup {"argsArray", "argsString", "h:error", "h:nil"}
     [] m = "initialize" -> PCommon \cup {"keyMissing", "keyNumber", "keyNull"}
+    [] m \in {"resources/subscribe", "resources/unsubscribe"} -> PCommon \cup PKeyed
+    [] m = "completion/complete" -> PCommon \cup {"keyMissing", "keyNumber", "keyNull", "unknownEntry"}
     [] OTHER -> PCommon
 
 NotFound == {"rpc:-32601", "rpc:-32602", "rpc:-32002"}
@@ -35,6 +42,12 @@ Refuse == {"rpc:any", "http4xx", "http5xx"}
 
 Expect(m, pc) ==
   IF m = "unknown/method" THEN {"rpc:-32601"}
+  ELSE IF m \in Optional THEN
+         IF pc = "ok" THEN {"result", "rpc:any"}
+         ELSE IF m = "logging/setLevel" \/ pc = "unknownEntry" THEN {"result", "rpc:any"}
+         ELSE {"rpc:any"}                      \* parameters absent or of the wrong shape are never served as a success
+  ELSE IF m = "resources/templates/list" THEN       \* not among the methods every transport serves (stdio: -32601)
+         IF pc \in {"ok", "absent", "null"} THEN {"result", "rpc:-32601"} ELSE {"result", "rpc:-32602", "rpc:-32601"}
   ELSE IF m \notin NeedsParams THEN
          IF pc \in {"ok", "absent", "null"} THEN {"result"} ELSE {"result", "rpc:-32602"}
   ELSE CASE pc = "ok" -> {"result"}
@@ -60,6 +73,6 @@ Spec == Init /\ [][Next]_vars
 NeverEmpty == expect # {}
 StrictWhereStated ==
   /\ (m = "unknown/method") => expect = {"rpc:-32601"}
-  /\ (m \in NeedsParams /\ pc \in {"absent", "array", "string", "number", "keyMissing", "keyNumber"}) => expect = {"rpc:-32602"}
+  /\ (m \in NeedsParams \ Optional /\ pc \in {"absent", "array", "string", "number", "keyMissing", "keyNumber"}) => expect = {"rpc:-32602"}
   /\ (pc = "h:error") => expect = {"rpc:-32603"}
 =============================================================================
